@@ -115,6 +115,18 @@ def make_table(spec):
             X = np.column_stack([X, (X[:, j] > np.median(X[:, j])).astype(float)])
         elif ex == 'constant':
             X = np.column_stack([X, np.full(n, 7.0)])
+        elif ex == 'timestamp':
+            # large magnitude, small relative spread (epoch seconds within an hour): NOT a constant column
+            X = np.column_stack([X, 1.7e9 + 300.0 * Z[:, j % Z.shape[1]] + 40.0 * rng.standard_normal(n)])
+        elif ex == 'tiny_values':
+            X = np.column_stack([X, 2.5e-9 * (1 + 0.2 * Z[:, j % Z.shape[1]])])
+        elif ex == 'sum':
+            # exact multi-column collinearity without duplicated or constant columns
+            i2 = int((j + 1) % d)
+            X = np.column_stack([X, X[:, j] + X[:, i2]])
+        elif ex == 'outlier':
+            X = np.column_stack([X, X[:, j]])
+            X[int(rng.integers(n)), -1] = X[:, j].mean() - 25 * (X[:, j].std() or 1.0)
         spec_kind = ex
         dists.append(None)
     k = X.shape[1]
@@ -197,3 +209,26 @@ def pearson(Zs):
                 continue
             C[i, j] = np.sum(D[:, i] * D[:, j]) / (ss[i] * ss[j])
     return C, const
+
+
+def give_past(model, df, rng):
+    """Give a GaussianMultivariate instance a past: fit it on a table with the same columns but another
+    dependence structure and scale, and USE it (density, CDF, sampling, conditional sampling), so that
+    anything cached lazily is filled before the fit that is going to be judged."""
+    import pandas as pd
+    other = pd.DataFrame({c: rng.permutation(df[c].to_numpy()) * float(rng.choice([1.0, 3.0])) for c in df.columns},
+                         columns=df.columns)
+    try:
+        np.random.seed(int(rng.integers(1 << 30)))
+        model.fit(other)
+        q = other.iloc[:3]
+        model.probability_density(q)
+        model.cumulative_distribution(q.iloc[:1])
+        model.sample(3)
+        cols = list(df.columns)
+        for k in range(1, len(cols)):
+            model.sample(2, conditions={c: float(other[c].iloc[0]) for c in cols[:k]})
+            model.sample(2, conditions={c: float(other[c].iloc[0]) for c in cols[-k:]})
+    except Exception:  # noqa: BLE001 - the past is only a diversity factor
+        pass
+    return model
